@@ -2,3 +2,4 @@ pub mod smoke;
 pub mod server;
 pub mod idmath;
 pub mod rt;
+pub mod mostrecent;
